@@ -1,6 +1,10 @@
 package clienteng
 
-import "verifharness/internal/ev"
+import (
+	"strconv"
+
+	"verifharness/internal/ev"
+)
 
 func jc(name string) jarCookie {
 	for _, n := range jarNames {
@@ -122,6 +126,14 @@ func jarCorpus(je *jarEngine) {
 	huge.Huge = true
 	run("max-age-huge", opCycle("h1.test", "/", huge), opGet("h1.test", "/"), opAdv(2), opGet("h1.test", "/"))
 	run("max-age-negative-deletes", opSet("SetByHost", "h1.test", jc("root")), opCycle("h1.test", "/", jcDel("root", "negative-max-age")), opGet("h1.test", "/"))
+	// flag attributes before Max-Age / Expires, trailing ';', mixed-case attribute names
+	shaped := func(c jarCookie, shape int) jarCookie { c.Shape = shape; return c }
+	for _, sh := range []int{1, 2, 3, 4, 8, 16, 31} {
+		n := strconv.Itoa(sh)
+		run("set-cookie-shape-"+n+"-delete-max-age-0", opSet("SetByHost", "h1.test", jc("root")), opCycle("h1.test", "/", shaped(jcDel("root", "max-age-0"), sh)), opGet("h1.test", "/"))
+		run("set-cookie-shape-"+n+"-max-age-expiry", opCycle("h1.test", "/", shaped(jcMaxAge("root", 2), sh)), opGet("h1.test", "/"), opAdv(3), opGet("h1.test", "/"))
+		run("set-cookie-shape-"+n+"-delete-past-expires", opSet("SetByHost", "h1.test", jc("root")), opCycle("h1.test", "/", shaped(jcDel("root", "past-expires"), sh)), opGet("h1.test", "/"))
+	}
 	// sanity: these hold on a correct jar and on this one
 	run("sanity-expires", opSet("SetByHost", "h1.test", jcExp("root", 2)), opGet("h1.test", "/"), opAdv(3), opGet("h1.test", "/"))
 	run("sanity-hosts", opSet("SetByHost", "h1.test", jc("root")), opSet("SetKeyValue", "h2.test", jc("np1")),
